@@ -23,7 +23,7 @@ from ..walker import GuardWalker
 ARTEFACTS = {
     "Optional[..]": (re.compile(r"Optional\[\{"), ("Optional",)),
     "List[..]": (re.compile(r"List\[\{"), ("List", "append")),
-    "Defaults to": (re.compile(r"Defaults to"), ("has_defaults", "Defaults to", "defaults to")),
+    "Defaults to": (re.compile(r"Defaults to"), ("has_defaults", "Defaults to", "defaults to", "'Defaults' in", "'defaults' in")),
     "back-tick quoting": (re.compile(r"```\{"), ("code_quoted", "```")),
     "[PK]": (re.compile(r"\[PK\]"), ("[PK]",)),
     "[..] marker": (re.compile(r"^\[\{\}\]"), ("longname", "primary_key", "foreign_key")),
@@ -125,7 +125,7 @@ def run(ctx):
             n_sites += 1
             art = arts[0]
             facts = facts_at.get(id(n)) or {}
-            how, why = _discharge(index, f, n, slot, art, facts, seen_pairs)
+            how, why = _discharge(index, f, n, slot, art, facts, seen_pairs, canon=lambda t, _f=f: ctx._canon(_f.mod.name, _f.short, t))
             kinds[how or "UNDISCHARGED"] = kinds.get(how or "UNDISCHARGED", 0) + 1
             ctx.ob(
                 "C08.growth",
@@ -176,12 +176,14 @@ def run(ctx):
     ctx.section(_pattern, ctx, index)
 
 
-def _discharge(index, f, n, slot, art, facts, seen_pairs):
+def _discharge(index, f, n, slot, art, facts, seen_pairs, canon=None):
     """(kind, reason) or (None, what was looked for)"""
     stmt_txt = " ".join(norm(n).split())
-    # (b) frozen pair, verified
+    canon = canon or (lambda t: t)
+    root = slot.split("[")[0]
+    # (b) frozen pair, verified (the statement is compared with local names abstracted away)
     for (q, text), (pq, strip, reason) in PAIRED.items():
-        if f.qual == q and stmt_txt == text:
+        if f.qual == q and canon(stmt_txt) == canon(text):
             seen_pairs.add((q, text))
             pf = index.func(pq)
             if any(strip in norm(x) for x in iter_own(pf.node) if isinstance(x, ast.Call)):
@@ -224,10 +226,10 @@ def _discharge(index, f, n, slot, art, facts, seen_pairs):
                 return "d", "the `{}` suffix that triggers it is sliced off".format(suffix)
         if ".pop(" in text and truth is True:
             return "d", "its trigger is popped by the guard `{}`".format(short(text, 50))
-        if truth is True and " in _param" in text:
+        if truth is True and text.endswith(" in " + root):
             # marker key folded into the doc and deleted in the same block
             blk = f.mod.parents.get(n)
-            if any(isinstance(x, ast.Delete) and "_param[" in norm(x) for b in getattr(blk, "body", []) for x in ast.walk(b)):
+            if any(isinstance(x, ast.Delete) and (root + "[") in norm(x) for b in getattr(blk, "body", []) for x in ast.walk(b)):
                 return "d", "the key that triggers it ({}) is deleted in the same block".format(short(text, 40))
     for sub in ast.walk(n.value):
         if isinstance(sub, ast.IfExp) and ".endswith(" in norm(sub.test) and "[:-len(" in norm(sub.body).replace(" ", ""):
